@@ -132,6 +132,7 @@ REQUIRE = {
     "ring_cells_compared": 4000,
     "live_attribute_changes": 200,
     "maxprinciple_simulator_steps_after_attribute_change": 60,
+    "maxprinciple_navier_stokes_steps_after_attribute_change": 20,
     "maxprinciple_kernel_steps_on_reused_scratch_object": 60,
     "sims_sibling_same_shape_other_parameters": 8,
     "sims_rechecked_after_sibling": 8,
@@ -147,6 +148,7 @@ REQUIRE = {
     "kernel_steps_with_exactly_zero_step_size": 40,
     "fn_calls_with_noncontiguous_array_arguments": 100,
     "fn_calls_with_temporary_view_arguments": 60,
+    "fn_calls_on_grids_above_65536_cells": 8,
     "other_precision_predecessors": 8,
 }
 SIM_KINDS = ("passive2d", "passive3d", "ns2d", "ns3d")
@@ -403,7 +405,9 @@ def _run_sim(sh, rec):
             rec.count("live_attribute_changes")
             meta = {**meta0, "nu": nu_cur, "cfl": cfl_cur, "velocity": vk, "changed": what, "history_step": hs, "object": "same-object-history"}
             _check_dt(rec, lambda p: call_dt(sim, p), sim.velocity_field, d, dx, nu_cur, cfl_cur, real_t, rng, (kind, d, sh["dtype"], "live", what), meta)
-            if not kind.startswith("passive"):
+            is_ns = not kind.startswith("passive")
+            mrg = 5  # Navier-Stokes simulators damp the vorticity in a boundary zone (width 2): the probe field vanishes within 5 cells of it
+            if is_ns and min(shape) < 2 * mrg + 1:
                 continue
             sim.velocity_field[...] = 0
             try:
@@ -420,19 +424,32 @@ def _run_sim(sh, rec):
                 dt = lim * dx**2 / nu_cur * (1 - 4 * eps)
                 alpha = nu_cur * dt / dx**2
             fk = FIELD_KINDS[hs % 4]
-            f0 = _mp_field(rng, sim.primary_field.shape, fk, real_t)
-            sim.primary_field[...] = f0
+            prim = sims.primary(sim)
+            if is_ns:
+                # fluid at rest, vorticity spikes deep in the interior: advection / stretching contribute exactly nothing, so the step
+                # the simulator takes with ITS OWN recommended dt is the explicit diffusion step (boundary damping only sees zeros)
+                fk = "interior-spikes"
+                f0 = np.zeros(prim.shape, real_t)
+                I = (Ellipsis,) + tuple(slice(mrg, n - mrg) for n in shape)
+                core = f0[I]
+                hit = rng.random(core.shape) < 0.15
+                core[hit] = (rng.choice([1.0, -1.0, 0.5, 3.0], size=int(hit.sum())) * float(10 ** rng.uniform(-2, 2))).astype(real_t)
+                f0[I] = core
+                rec.count("maxprinciple_navier_stokes_steps_after_attribute_change")
+            else:
+                f0 = _mp_field(rng, prim.shape, fk, real_t)
+            prim[...] = f0
             sims.poison(rng, {"b": sim.buffer_scalar_field})
             try:
                 sim.time_step(dt)
             except Exception as e:
                 rec.violation("time_step-raises", f"{type(e).__name__}: {e} {meta}", {"meta": meta, "f": f0})
                 continue
-            new = sim.primary_field
+            new = sims.primary(sim)
             comps = [(f0, new)] if new.ndim == d else [(f0[c], new[c]) for c in range(d)]
             ncell = 0
             for o, nwf in comps:
-                ncell += _check_maxprinciple(rec, o, nwf, eps, "simulator-diffusion", f"passive simulator step alpha={alpha:.6g} field={fk} after changing {what} {meta}", {"meta": meta, "f": f0, "dt": dt})
+                ncell += _check_maxprinciple(rec, o, nwf, eps, "simulator-diffusion", f"{kind} simulator step alpha={alpha:.6g} field={fk} after changing {what} {meta}", {"meta": meta, "f": f0, "dt": dt})
             rec.count("maxprinciple_simulator_steps_after_attribute_change")
             rec.count("maxprinciple_cells", ncell)
             if alpha >= 0.99 * lim:
@@ -513,6 +530,12 @@ def _run_fn(sh, rec):
         nu, dx_t, cfl = _draw_params(rng, d, real_t)
         dx = real_t(dx_t)
         vk = VEL_KINDS[int(rng.integers(len(VEL_KINDS)))]
+        if it % 40 == 7:
+            # production-size grid (> 65536 cells) whose slowest axis is an odd / prime-ish length: reductions done slab by slab or
+            # block by block only have a remainder to drop on grids like this; the fastest cells are the last (or first) in memory
+            shape = (int(rng.integers(257, 340)), 256) if d == 2 else (int(rng.integers(41, 54)), 40, 41)
+            vk = ("spike_last", "spike_last", "noise")[int(rng.integers(3))]
+            rec.count("fn_calls_on_grids_above_65536_cells")
         vel = _velocity(rng, vk, d, shape, real_t)
         buf = util.sentinel_like(rng, shape, real_t)
         meta = {"class": "function", "dim": d, "dtype": sh["dtype"], "shape": shape, "dx": float(dx), "nu": nu, "cfl": cfl, "velocity": vk}
